@@ -345,7 +345,7 @@ static void subIn(const std::string& rep, const XMLCh* s, Match& m, U16& out) {
     }
 }
 
-static std::string tokOne(RegularExpression* re, const Subj& x) {
+static std::string tokOne(RegularExpression* re, RegularExpression* plain, const Subj& x) {
     if (sigsetjmp(gJmp, 1) != 0) return "C";
     gArmed = 1;
     std::string out;
@@ -359,7 +359,7 @@ static std::string tokOne(RegularExpression* re, const Subj& x) {
         size_t p = 0, guard = 0;
         while (p <= len && guard++ < 4 * len + 8) {
             Match m;
-            if (!re->matches(x.s.data(), p, len, &m)) break;
+            if (!plain->matches(x.s.data(), p, len, &m)) break;
             int a = m.getStartPos(0), b = m.getEndPos(0);
             emuTok.push_back(U16(x.s.begin() + p, x.s.begin() + a));
             for (int k = (int)p; k < a; k++) emuRep.push_back(x.s[k]);
@@ -404,6 +404,14 @@ static std::string doXp(const std::string& mode, const std::string& opts, const 
         std::unique_ptr<RegularExpression> re(compileRe(toU16(parseHex(ph, 6)), uopts, err));
         if (!re) { out += err; continue; }
         std::vector<std::string> res;
+        std::unique_ptr<RegularExpression> plain;
+        if (mode == "t") {
+            // the emulation of tokenize/replace from match positions uses the expression without pre-filters (F, H)
+            std::vector<uint32_t> o2(o); o2.push_back('F'); o2.push_back('H');
+            std::string e2;
+            plain.reset(compileRe(toU16(parseHex(ph, 6)), toU16(o2), e2));
+            if (!plain) { out += e2; continue; }
+        }
         if (mode == "i") {
             std::vector<std::string> fwd, bwd(subj.size()), again;
             for (auto& x : subj) { Match m; fwd.push_back(matchWith(re.get(), x, &m)); }
@@ -416,7 +424,7 @@ static std::string doXp(const std::string& mode, const std::string& opts, const 
                 if (mode == "b") res.push_back(matchWith(re.get(), x, 0));
                 else if (mode == "f") { Match m; res.push_back(matchWith(re.get(), x, &m)); }
                 else if (mode == "r") res.push_back(matchWith(re.get(), x, &shared));
-                else if (mode == "t") res.push_back(tokOne(re.get(), x));
+                else if (mode == "t") res.push_back(tokOne(re.get(), plain.get(), x));
             }
         }
         for (size_t k = 0; k < res.size(); k++) out += (k ? ";" : "") + res[k];
